@@ -33,25 +33,40 @@ def enumArg (ty : EnumTy) : Arg → Option Nat
       if s ∈ Gen.setterStrings ty then valueIdx (Gen.members (Gen.setterConv ty)) s else none
   | _ => none
 
-/-- `isinstance(x, int) and x > 0` (`True` is the integer 1 in Python) -/
-def posInt : Arg → Option Int
-  | .scalar (.int z) => if 0 < z then some z else none
-  | .scalar (.bool b) => if b then some 1 else none
+/-- `isinstance(x, int) and x > c` with the generated bound `c` (`True` is the integer 1) -/
+def intArg (lower : Int) : Arg → Option Int
+  | .scalar (.int z) => if lower < z then some z else none
+  | .scalar (.bool b) => if lower < (if b then 1 else 0) then some (if b then 1 else 0) else none
   | _ => none
 
-/-- `isinstance(num, (int, float)) and num > 0` -/
+/-- `x > c` for a Python float and an integer `c`; NaN compares False with everything, so it is
+    refused by `not num > c` and let through by `num <= c` (`rejectsNan` says which is written) -/
+def FloatV.gtInt (x : FloatV) (c : Int) (rejectsNan : Bool) : Bool :=
+  match x with
+  | .fin n d => decide (c * (d : Int) < n)
+  | .posInf => true
+  | .negInf => false
+  | .nan => !rejectsNan
+
+/-- `isinstance(num, (int, float))` and the generated positivity test -/
 def numPos : Scalar → Option FloatV
-  | .int z => if 0 < z then some (.fin z 1) else none
-  | .bool b => if b then some (.fin 1 1) else none
-  | .float x => if x.pos then some x else none
+  | .int z => if Gen.plotLower < z then some (.fin z 1) else none
+  | .bool b => if Gen.plotLower < (if b then 1 else 0) then some (.fin (if b then 1 else 0) 1) else none
+  | .float x => if x.gtInt Gen.plotLower Gen.plotRejectsNan then some x else none
   | _ => none
 
-/-- `plot_dimensions` setter: a tuple of length 2, then both entries positive numbers -/
+/-- `plot_dimensions` setter: a tuple of the generated length (the state holds two entries),
+    then every entry a positive number -/
 def plotArg : Arg → Option (FloatV × FloatV)
-  | .tuple [x, y] =>
-      match numPos x, numPos y with
-      | some a, some b => some (a, b)
-      | _, _ => none
+  | .tuple l =>
+      if l.length = Gen.plotLen then
+        match l with
+        | [x, y] =>
+          match numPos x, numPos y with
+          | some a, some b => some (a, b)
+          | _, _ => none
+        | _ => none
+      else none
   | _ => none
 
 /-- member index of `SigFigMode.<name>` -/
@@ -85,19 +100,19 @@ def step (c : Cfg) : Op → Cfg × Res
       | some i => ({ c with unitStyle := i }, .ok)
       | none => (c, .reject)
   | .setSigVal a =>
-      match posInt a with
+      match intArg Gen.sigValLower a with
       | some z => ({ c with sigVal := z }, .ok)
       | none => (c, .reject)
   | .sigFigsValue a =>          -- the number is validated (and stored) before the mode is touched
-      match posInt a with
+      match intArg Gen.sigValLower a with
       | some z => ({ c with sigVal := z, sigMode := sigModeIdx "VALUE" }, .ok)
       | none => (c, .reject)
   | .sigFigsError a =>
-      match posInt a with
+      match intArg Gen.sigValLower a with
       | some z => ({ c with sigVal := z, sigMode := sigModeIdx "ERROR" }, .ok)
       | none => (c, .reject)
   | .setMcSize a =>
-      match posInt a with
+      match intArg Gen.mcSizeLower a with
       | some z => ({ c with mcSize := z }, .ok)
       | none => (c, .reject)
   | .setPlotDims a =>
